@@ -25,7 +25,7 @@ ATOMS_INT = [0, 1, -1, 7, 2**31 - 1, -(2**31), 2**31, -(2**31) - 1, 2**64, -(2**
 ATOMS_FLOAT = [0.0, -0.0, 1.0, 1.5, float("nan"), float("inf"), float("-inf"), struct.unpack("!d", b"ABCDEFGH")[0], 5e-324]
 ATOMS_STR = ["", "|", "a", "b", "ab", "ABCD", "ABCDEFGH", "__DDS_NONE__", "__none__", "é", "a|b", H(b"a"),
              H(b"a") + "|" + H(b"b"), "\ud800", "None", "0", "\x00\x00\x00\x01"]
-ATOMS_PATH = ["a", "/x/y", "__DDS_NONE__", "."]
+ATOMS_PATH = ["a", "/x/y", "__DDS_NONE__", ".", "../data", "a/../b", "../../x/y", ".."]
 ATOMS_DATE = ["datetime.date(2020, 1, 2)", "datetime.datetime(2020, 1, 2, 3, 4)", "datetime.time(1, 2)",
               "datetime.timedelta(days=3)", "datetime.timezone.utc"]
 ATOMS_OTHER = ["bytes", "set", "object", "complex"]
